@@ -34,6 +34,9 @@ func (r *DOH) VerifShiftLastMod(d time.Duration) {
 	r.mu.Unlock()
 }
 
+// VerifLastMod reads the recorded configuration change of one profile URL.
+func (r *DOH) VerifLastMod(url string) time.Time { return r.lastMod(url) }
+
 // VerifKeyString renders a cache key.
 func VerifKeyString(k interface{}) string {
 	if ck, ok := k.(cacheKey); ok {
